@@ -136,7 +136,13 @@ def join_queries() -> List[dict]:
                         out.append({"the": the, "sel": sel, "vars": {sel: sel_c, v2: c2}, "cond": c})
                 ej2 = ["cmp", "==", ["attr", sel, ["child" if r1 == "parent" else "parent"]], ["attr", v2, [r2]]]
                 plain = ["cmp", "==", ["attr", sel, ["child", "size"]], ["lit", 7]]
-                for c in (["and", ej, ej2], ["or", ej, ej2], ["or", ej, plain], ["or", plain, ej], ["and", plain, ["or", ej, ej2]]):
+                plain2 = ["cmp", "==", ["attr", sel, ["child", "size"]], ["lit", 6]]
+                plain3 = ["cmp", ">=", ["attr", sel, ["parent", "size"]], ["lit", 6]]
+                for c in (["and", ej, ej2], ["or", ej, ej2], ["or", ej, plain], ["or", plain, ej], ["and", plain, ["or", ej, ej2]],
+                          # or_(a, b, join) = OR(OR(a, b), join): the join alternative comes after a nested or_ has closed
+                          ["or", ["or", plain, plain2], ej], ["or", ["or", plain2, plain3], ej2],
+                          ["or", ["and", plain3, ["or", plain, plain2]], ej], ["or", ["or", ["or", plain, plain2], plain3], ej],
+                          ["and", plain3, ["or", ["or", plain, plain2], ej]], ["or", ["or", plain, ej], ["or", plain2, ej2]]):
                     out.append({"the": False, "sel": sel, "vars": {sel: sel_c, v2: c2}, "cond": c})
     return out
 
